@@ -270,6 +270,12 @@ class World:
                             w.log.append(('val', hid, eid, 'ERR'))
                             w.log.append(('exit', hid, eid, 'raise'))
                             raise Boom(hid)
+                        elif op == 'retfire':
+                            # the handler's result is the (future) Value of an event it fires
+                            ev = w.fire(st[1], st[2] if len(st) > 2 else None, by=eid, by_hid=hid, firer=self)
+                            w.log.append(('val', hid, eid, ('NESTED', ev.eid)))
+                            w.log.append(('exit', hid, eid, 'ret'))
+                            return w.values[ev.eid]
                         elif op == 'ret':
                             v = w.val(st[1], eid)
                             if v is not None:
@@ -328,6 +334,8 @@ def snap(x):
 
 
 def snapv(v):
+    if hasattr(v, 'getValue') and hasattr(v, 'errors'):      # a nested Value: what it resolves to
+        return snapv(v.value)
     if isinstance(v, list):
         return [snapv(i) for i in v]
     if isinstance(v, tuple) and len(v) == 3 and isinstance(v[0], type) and issubclass(v[0], BaseException):
